@@ -168,10 +168,12 @@ class BaseChooser:
 class SymbolicChooser(BaseChooser):
     symbolic = True
 
-    def __init__(self):
+    def __init__(self, prefix=None):
         self.log: list[list] = []  # [kind, label, value-or-proxy]
         self.notes: dict[str, Any] = {}
         self._n = 0
+        self.prefix = list(prefix or [])  # forced values of the first picks (case split across shards)
+        self._npick = 0
 
     def _name(self, label):
         self._n += 1
@@ -200,6 +202,13 @@ class SymbolicChooser(BaseChooser):
                 return self.pick(n, label)
         if n <= 0:
             raise HarnessError(f"pick({n}) at {label}")
+        self._npick += 1
+        if self._npick <= len(self.prefix):
+            v = self.prefix[self._npick - 1]
+            if not (0 <= v < n):
+                raise HarnessError(f"shard prefix value {v} out of range {n} at {label}")
+            self.log.append(["pick", label, v])
+            return v
         if n == 1:
             self.log.append(["pick", label, 0])
             return 0
@@ -282,6 +291,61 @@ class ReplayChooser(BaseChooser):
     def assume(self, cond):
         if not cond:
             raise ReplayMismatch("assumption false on replay")
+
+
+class _NeedArity(BaseException):
+    def __init__(self, n):
+        self.n = n
+
+
+class ProbeChooser(BaseChooser):
+    """Runs a body natively along a forced prefix of picks to learn the arity of the next pick."""
+
+    def __init__(self, prefix):
+        self.prefix, self.i, self.log, self.notes = list(prefix), 0, [], {}
+
+    def untraced(self):
+        import contextlib
+
+        return contextlib.nullcontext()
+
+    def pick(self, n, label=""):
+        if self.i < len(self.prefix):
+            v = self.prefix[self.i]
+            self.i += 1
+            return v
+        raise _NeedArity(n)
+
+    def int(self, label="", lo=None, hi=None):
+        return lo if lo is not None else (hi if hi is not None else 0)
+
+    def str(self, label="", maxlen=2, alphabet=None):
+        return ""
+
+    def assume(self, cond):
+        if not cond:
+            raise _NeedArity(0)
+
+
+def split_prefixes(body, params, target: int, max_depth: int = 6) -> list[list[int]]:
+    """Case-split the leading picks of body(ch, params) into >= target prefixes (breadth first)."""
+    frontier = [[]]
+    done = []
+    while frontier and len(frontier) + len(done) < target:
+        p = frontier.pop(0)
+        if len(p) >= max_depth:
+            done.append(p)
+            continue
+        try:
+            body(ProbeChooser(p), params)
+            done.append(p)  # body finished without needing more picks
+        except _NeedArity as na:
+            if na.n == 0:
+                continue  # assumption false: prefix infeasible
+            frontier.extend(p + [v] for v in range(na.n))
+        except Exception:
+            done.append(p)  # let the real exploration report it
+    return done + frontier
 
 
 # ----------------------------------------------------------------------------------------------
@@ -383,7 +447,7 @@ def explore(
             model_check_timeout=per_path_timeout / 2,
             search_root=root,
         )
-        ch = SymbolicChooser()
+        ch = SymbolicChooser(params.get("_prefix") if isinstance(params, dict) else None)
         status = None
         with condition_parser([AnalysisKind.PEP316]), Patched(), COMPOSITE_TRACER, NoTracing(), StateSpaceContext(space):
             try:
